@@ -9,6 +9,9 @@ Record c07case := { h_entry : N; h_ty : ty; h_input : string; h_class : N; h_lef
 
 Section WithCfg.
   Variable c : wcfg.
+  (* what generated decoders do with a count: PGen = allocate from it (pinned), PSig = grow with
+     the elements read (after the template repair); observed by the harness on the witness input *)
+  Variable gen_pol : policy.
   Definition code {A} (r : res A) : N := match r with ROk _ => 0 | RErr _ => 1 | RPanic => 2 | RFuel => 3 end.
   Definition left {A} (r : res (A * bytes)) : N := match r with ROk (_, l) => N.of_nat (List.length l) | _ => 0 end.
   Definition msg_code (bs : bytes) : N :=
@@ -47,7 +50,7 @@ Section WithCfg.
   Definition alloc_ok (k : c07case) : bool :=
     match h_entry k with
     | 4 | 5 | 6 =>
-        let a := alloc (snd (cdec PGen false (h_ty k) (unhex (h_input k)) budget)) in
+        let a := alloc (snd (cdec gen_pol false (h_ty k) (unhex (h_input k)) budget)) in
         if 268435456 <? a then h_big k =? 1 else if a <? 4194304 then h_big k =? 0 else true
     | 3 =>
         let a := alloc (snd (cdec PRefl (refl_neg_len_panics c) (h_ty k) (unhex (h_input k)) budget)) in
@@ -60,7 +63,7 @@ Section WithCfg.
     let bs := unhex (h_input k) in
     match h_entry k with
     | 4 | 5 | 6 =>
-        let r := cdec PGen false (h_ty k) bs budget in
+        let r := cdec gen_pol false (h_ty k) bs budget in
         (class_of (fst r) =? code (gen_dec parse_opt (h_ty k) bs))
     | 3 => if plain_t (h_ty k)
            then let r := cdec PRefl (refl_neg_len_panics c) (h_ty k) bs budget in
